@@ -120,7 +120,7 @@ func hE2E(dir string) {
 					cmd = &regattapb.Command{Type: regattapb.Command_DELETE, Kv: &regattapb.KeyValue{Key: c.Kv.Key}, PrevKvs: c.PrevKvs, RangeEnd: re, Count: c.Count}
 				case regattapb.Command_TXN:
 					rq := &regattapb.TxnRequest{Table: tname, Compare: c.Txn.Compare, Success: c.Txn.Success, Failure: c.Txn.Failure}
-					if rq.IsReadonly() {
+					if txnIsReadonly(rq) {
 						cancel()
 						continue
 					}
@@ -199,7 +199,7 @@ func hE2E(dir string) {
 						t.Compare = nil
 					}
 					trq := &regattapb.TxnRequest{Table: tname, Compare: t.Compare, Success: t.Success, Failure: t.Failure}
-					if !trq.IsReadonly() {
+					if !txnIsReadonly(trq) {
 						break
 					}
 					resp, err := kv.Txn(ctx, trq)
